@@ -137,6 +137,8 @@ package cache
 //@   loop 0: invariant [hit]   done == nil ==> ((status == StatusHit ==> response != nil) && (status != StatusHit ==> response == nil))
 //@   loop 0: invariant [clock] $clock >= old($clock)
 //@   loop 0: invariant [owed]  $owed == old($owed)
+//@   loop 0: invariant [fresh] (done == nil && status == StatusHit) ==> $clock <= at(lastunlock, hc.expiredAt) && response == at(lastunlock, hc.response)
+//@   ensures_local [fresh-hit] status == StatusHit ==> $clock <= at(lastunlock, hc.expiredAt) && response == at(lastunlock, hc.response)
 //@   loop 0: invariant [wait]  $regs - old($regs) == $recv_total - old($recv_total) + ((done != nil) ? 1 : 0)
 //@   ensures [recv]    $regs - old($regs) == $recv_total - old($recv_total)
 //@   ensures [owed]    $owed == old($owed)
@@ -220,6 +222,7 @@ package cache
 //@   ensures  [nodebt]   $owed == $sent_total
 //@   ensures  [clock]    $clock >= old($clock)
 //@   atunlock [state]    hc.status == StatusHitForPass && len(hc.chanList) == 0
+//@   precall cache.httpCache.saveToStore#0 [persist-after] hc.status == StatusHitForPass && hc.expiredAt != 0 && hc.expiredAt == wrap64($expbase[hc] + ((ttl <= 0) ? 300 : ttl))
 //@   atunlock [ttl]      hc.expiredAt == wrap64($expbase[hc] + ((ttl <= 0) ? 300 : ttl))
 //@                         && at(lock0, $clock) <= $expbase[hc] && $expbase[hc] <= $clock
 //@   atunlock [release]  forall i int :: 0 <= i && i < at(lock0, len(hc.chanList)) ==>
@@ -246,6 +249,7 @@ package cache
 //@   ensures  [clock]    $clock >= old($clock)
 //@   ensures  [best]     resp.CompressSrv == compress.BestCompression
 //@   atunlock [state]    hc.status == StatusHit && hc.response == resp && len(hc.chanList) == 0
+//@   precall cache.httpCache.saveToStore#0 [persist-after] hc.status == StatusHit && hc.response == resp && hc.expiredAt == wrap64(hc.createdAt + ttl) && hc.expiredAt != 0
 //@   atunlock [times]    hc.expiredAt == wrap64(hc.createdAt + ttl) && at(lock0, $clock) <= hc.createdAt && hc.createdAt <= $clock
 //@   atunlock [release]  forall i int :: 0 <= i && i < at(lock0, len(hc.chanList)) ==>
 //@                         $sent[at(lock0, hc.chanList[i])] == at(lock0, $sent)[at(lock0, hc.chanList[i])] + 1
@@ -289,6 +293,8 @@ package cache
 // every value held by a shard is a non-nil cache entry
 //@ pred lruInv(l *httpLRUCache) := forall k any :: l.cache.dom[k] ==> typeis(l.cache.view[k], "*httpCache") && unbox(l.cache.view[k], "*httpCache") != nil
 //@ lockinv httpLRUCache.mu(l) [entries]: lruInv(l)
+// the LRU's contents are shared state protected by the shard lock
+//@ guarded_by httpLRUCache.mu: cache.view, cache.dom
 
 //@ func byteSliceToString(b []byte) (s string)
 //@   trusted
@@ -337,13 +343,18 @@ package cache
 //@   modifies shardOf(d, key).cache.view, shardOf(d, key).cache.dom
 //@   nopanic
 //@   ensures [nonnil] hc != nil
-//@   ensures [mapped] shardOf(d, key).cache.dom[keyOf(key)] && shardOf(d, key).cache.view[keyOf(key)] == box(hc)
-//@   ensures [stable] (old(shardOf(d, key).cache.dom[keyOf(key)]) && typeis(old(shardOf(d, key).cache.view[keyOf(key)]), "*httpCache"))
-//@                      ==> box(hc) == old(shardOf(d, key).cache.view[keyOf(key)])
-//@   ensures [new]    !old(shardOf(d, key).cache.dom[keyOf(key)]) ==> fresh(hc) && hc.status == StatusUnknown && hc.expiredAt == 0
-//@                      && hc.store == d.store && (d.store != nil ==> hc.key == key)
-//@   ensures [others] forall k any :: k != keyOf(key) && shardOf(d, key).cache.dom[k]
-//@                      ==> old(shardOf(d, key).cache.dom[k]) && shardOf(d, key).cache.view[k] == old(shardOf(d, key).cache.view[k])
+//@   atunlock [result] true
+//@   atunlock [stable] at(lastlock, shardOf(d, key).cache.dom[keyOf(key)])
+//@                      ==> shardOf(d, key).cache.view[keyOf(key)] == at(lastlock, shardOf(d, key).cache.view[keyOf(key)])
+//@   atunlock [no-replace] forall k any :: at(lastlock, shardOf(d, key).cache.dom[k]) && shardOf(d, key).cache.dom[k]
+//@                      ==> shardOf(d, key).cache.view[k] == at(lastlock, shardOf(d, key).cache.view[k])
+//@   atunlock [no-add] forall k any :: k != keyOf(key) && shardOf(d, key).cache.dom[k] ==> at(lastlock, shardOf(d, key).cache.dom[k])
+//@   atunlock [mapped] shardOf(d, key).cache.dom[keyOf(key)]
+//@   atunlock [new]   !at(lastlock, shardOf(d, key).cache.dom[keyOf(key)]) ==>
+//@                      unbox(shardOf(d, key).cache.view[keyOf(key)], "*httpCache").status == StatusUnknown
+//@                      && unbox(shardOf(d, key).cache.view[keyOf(key)], "*httpCache").expiredAt == 0
+//@                      && unbox(shardOf(d, key).cache.view[keyOf(key)], "*httpCache").store == d.store
+//@                      && (d.store != nil ==> unbox(shardOf(d, key).cache.view[keyOf(key)], "*httpCache").key == key)
 //@   ensures [locks]  nolocks()
 
 //@ func (d *dispatcher) RemoveHTTPCache(key []byte)
@@ -351,9 +362,9 @@ package cache
 //@   requires [nolocks] nolocks()
 //@   modifies shardOf(d, key).cache.view, shardOf(d, key).cache.dom
 //@   nopanic
-//@   ensures [gone]   !shardOf(d, key).cache.dom[keyOf(key)]
-//@   ensures [others] forall k any :: k != keyOf(key) ==> shardOf(d, key).cache.dom[k] == old(shardOf(d, key).cache.dom[k])
-//@                      && shardOf(d, key).cache.view[k] == old(shardOf(d, key).cache.view[k])
+//@   atunlock [gone]   !shardOf(d, key).cache.dom[keyOf(key)]
+//@   atunlock [others] forall k any :: k != keyOf(key) ==> shardOf(d, key).cache.dom[k] == at(lastlock, shardOf(d, key).cache.dom[k])
+//@                      && shardOf(d, key).cache.view[k] == at(lastlock, shardOf(d, key).cache.view[k])
 //@   ensures [locks]  nolocks()
 
 //@ func (d *dispatcher) GetHitForPass() (ttl int)
